@@ -53,6 +53,7 @@ type Contract struct {
 	Requires []Clause
 	Panics   []Clause // panicsunless: the call panics unless the condition holds
 	Captures []Capture // capture: ghost names bound to an argument/result of a call made by the function
+	PanicHyp *Clause  // nopanic-lib: library panics (panicsunless clauses of callees) are obligations under this entry condition
 	OrmPost  []Clause // assume-orm: instances of the ORM representation invariant (wf ...) assumed at every return
 	Ensures  []Clause
 	Modifies []string
@@ -189,7 +190,7 @@ func unquote(s string) string {
 }
 
 var directiveRe = regexp.MustCompile(`^\s*//\s?@\s?(.*)$`)
-var labelRe = regexp.MustCompile(`^(\w+)\[([^\]]*)\]$`)
+var labelRe = regexp.MustCompile(`^([\w-]+)\[([^\]]*)\]$`)
 
 // LoadContractFile reads contracts from a Go comment-only file (lines `//@ ...`) or from a
 // .contracts file (same directives; the `//@` prefix is optional there). defaultPkg qualifies
@@ -308,6 +309,18 @@ func (sp *Spec) LoadContractFile(path, defaultPkg string) error {
 			}
 			c.Lets[parts[0]] = sx
 			c.LetOrder = append(c.LetOrder, parts[0])
+		case "nopanic-lib":
+			if err := need(); err != nil {
+				return err
+			}
+			sx, err := ParseOne(rest)
+			if err != nil {
+				return fmt.Errorf("%s: %s: %v", path, c.Func, err)
+			}
+			if label == "" {
+				label = "nopanic"
+			}
+			c.PanicHyp = &Clause{Label: label, Sx: sx, Src: rest}
 		case "assume-orm":
 			if err := need(); err != nil {
 				return err
